@@ -13,6 +13,14 @@ import "gorm.io/gorm"
 //	Node  --Pics (polymorphic)-------> Pic       single-key worlds only
 //	Node  --Logo (polymorphic has-one)> Pic      single-key worlds only (same table as Pics, type value "logo")
 //
+// Every Node also has a second, NON-primary unique key K (type of the first key part; its values are
+// drawn from the same pools and preferably are the primary-key text / number of ANOTHER node), and
+// relations that reference K instead of the primary key:
+//
+//	Node  --Extra (has-many)---------> Item      Item --Patron (belongs-to)--> Node   via Item.AltK = Node.K (all worlds)
+//	Node  --Shots (polymorphic)------> Pic       `polymorphic:Owner;foreignKey:K`, type value "shot" (single-key worlds)
+//	Node  --Seal (polymorphic has-one)> Pic      `polymorphic:Owner;foreignKey:K`, type value "seal" (single-key worlds)
+//
 // U is a unique surrogate (never a key of a relation) used to identify rows; V is a payload
 // used by preload / join conditions; N is a nullable payload (NULL in about half of the rows).
 // Node, Item, Card and Tag are soft-delete models.
@@ -49,6 +57,10 @@ type S1Node struct {
 	Tags  []S1Tag  `gorm:"many2many:s1_node_tags;foreignKey:A;joinForeignKey:NodeA;references:TA;joinReferences:TagTA"`
 	Pics  []S1Pic  `gorm:"polymorphic:Owner;polymorphicValue:node"`
 	Logo  *S1Pic   `gorm:"polymorphic:Owner;polymorphicValue:logo"`
+	K     string
+	Shots []S1Pic  `gorm:"polymorphic:Owner;polymorphicValue:shot;foreignKey:K"`
+	Seal  *S1Pic   `gorm:"polymorphic:Owner;polymorphicValue:seal;foreignKey:K"`
+	Extra []S1Item `gorm:"foreignKey:AltK;references:K"`
 }
 
 type S1Item struct {
@@ -58,6 +70,8 @@ type S1Item struct {
 	N         *int64
 	V         int64
 	Owner     *S1Node `gorm:"foreignKey:OwnA;references:A"`
+	AltK      *string
+	Patron    *S1Node `gorm:"foreignKey:AltK;references:K"`
 }
 
 type S1Card struct {
@@ -100,6 +114,10 @@ type I1Node struct {
 	Tags      []*I1Tag  `gorm:"many2many:i1_node_tags;foreignKey:A;joinForeignKey:NodeA;references:TA;joinReferences:TagTA"`
 	Pics      []*I1Pic  `gorm:"polymorphic:Owner;polymorphicValue:node"`
 	Logo      I1Pic     `gorm:"polymorphic:Owner;polymorphicValue:logo"`
+	K         int64
+	Shots     []*I1Pic  `gorm:"polymorphic:Owner;polymorphicValue:shot;foreignKey:K"`
+	Seal      I1Pic     `gorm:"polymorphic:Owner;polymorphicValue:seal;foreignKey:K"`
+	Extra     []*I1Item `gorm:"foreignKey:AltK;references:K"`
 }
 
 type I1Item struct {
@@ -109,6 +127,8 @@ type I1Item struct {
 	N         *int64
 	DeletedAt gorm.DeletedAt
 	Owner     *I1Node `gorm:"foreignKey:OwnA;references:A"`
+	AltK      int64
+	Patron    *I1Node `gorm:"foreignKey:AltK;references:K"`
 }
 
 type I1Card struct {
@@ -151,6 +171,8 @@ type SSNode struct {
 	Items     []SSItem `gorm:"foreignKey:OwnA,OwnB;references:A,B"`
 	Card      *SSCard  `gorm:"foreignKey:NodeA,NodeB;references:A,B"`
 	Tags      []SSTag  `gorm:"many2many:ss_node_tags;foreignKey:A,B;joinForeignKey:NodeA,NodeB;references:TA,TB;joinReferences:TagTA,TagTB"`
+	K         string
+	Extra     []SSItem `gorm:"foreignKey:AltK;references:K"`
 }
 
 type SSItem struct {
@@ -161,6 +183,8 @@ type SSItem struct {
 	V         int64
 	DeletedAt gorm.DeletedAt
 	Owner     *SSNode `gorm:"foreignKey:OwnA,OwnB;references:A,B"`
+	AltK      string
+	Patron    *SSNode `gorm:"foreignKey:AltK;references:K"`
 }
 
 type SSCard struct {
@@ -197,6 +221,8 @@ type ISNode struct {
 	Items     []*ISItem `gorm:"foreignKey:OwnA,OwnB;references:A,B"`
 	Card      ISCard    `gorm:"foreignKey:NodeA,NodeB;references:A,B"`
 	Tags      []*ISTag  `gorm:"many2many:is_node_tags;foreignKey:A,B;joinForeignKey:NodeA,NodeB;references:TA,TB;joinReferences:TagTA,TagTB"`
+	K         int64
+	Extra     []*ISItem `gorm:"foreignKey:AltK;references:K"`
 }
 
 type ISItem struct {
@@ -207,6 +233,8 @@ type ISItem struct {
 	N         *int64
 	DeletedAt gorm.DeletedAt
 	Owner     *ISNode `gorm:"foreignKey:OwnA,OwnB;references:A,B"`
+	AltK      *int64
+	Patron    *ISNode `gorm:"foreignKey:AltK;references:K"`
 }
 
 type ISCard struct {
@@ -243,6 +271,8 @@ type IINode struct {
 	Items     []IIItem `gorm:"foreignKey:OwnA,OwnB;references:A,B"`
 	Card      *IICard  `gorm:"foreignKey:NodeA,NodeB;references:A,B"`
 	Tags      []IITag  `gorm:"many2many:ii_node_tags;foreignKey:A,B;joinForeignKey:NodeA,NodeB;references:TA,TB;joinReferences:TagTA,TagTB"`
+	K         int64
+	Extra     []IIItem `gorm:"foreignKey:AltK;references:K"`
 }
 
 type IIItem struct {
@@ -253,6 +283,8 @@ type IIItem struct {
 	N         *int64
 	DeletedAt gorm.DeletedAt
 	Owner     *IINode `gorm:"foreignKey:OwnA,OwnB;references:A,B"`
+	AltK      *int64
+	Patron    *IINode `gorm:"foreignKey:AltK;references:K"`
 }
 
 type IICard struct {
